@@ -111,6 +111,10 @@ def thread_fn(port, calls, record, ctx=None):
                 port.send(m)
                 m.note = (m.note + 1) % 128          # changing the sent object afterwards must not be visible
                 out.append(('sent', c[1]))
+            elif c[0] == 'sendsx':
+                m = portsim.sx_msg_of(c[1])
+                port.send(m)
+                out.append(('sent', c[1]))
             elif c[0] == 'sendrt':
                 m = portsim.rt_msg_of(c[1])
                 port.send(m)
@@ -223,7 +227,7 @@ def judge(prog, ob):
                 if [k for k in order if k in ks] != ks:
                     return f'messages of sender {i} come out in the order {[k for k in order if k in ks]}, they were put as {ks}'
         return None
-    sent_by = {i: [c[1] for c in calls if c[0] in ('send', 'sendrt')] for i, calls in enumerate(threads)}
+    sent_by = {i: [c[1] for c in calls if c[0] in ('send', 'sendrt', 'sendsx')] for i, calls in enumerate(threads)}
     all_sent = [k for i in sent_by for k in sent_by[i]]
     got = []
     for i, rec in enumerate(ob['records']):
@@ -260,16 +264,33 @@ def judge(prog, ob):
         if any(v > mult for v in Counter(ids).values()):
             return f'a message was received more than once: {ids}'
     if kind in ('wire', 'ioport'):
-        wire = ob['ctx']['wire']
-        try:
-            parsed = [portsim.ident(m) for m in mido.parse_all(wire)]
-        except Exception as e:
-            return f'the wire does not parse: {e}'
-        if sorted(parsed) != sorted(all_sent) or len(wire) != 3 * len(all_sent):
-            return f'the bytes on the wire {wire} are not the whole encodings of the sent messages {all_sent} (mixed byte-wise?)'
-        for i, ks in sent_by.items():
-            if [k for k in parsed if k in ks] != ks:
-                return f'messages of sender {i} are out of order on the wire: {parsed}'
+        wire = list(ob['ctx']['wire'])
+        # every message arrives as ONE uninterrupted run of its bytes: the wire is a concatenation of whole encodings,
+        # per sender in the order sent
+        queues = []
+        for i, calls in enumerate(threads):
+            q = []
+            for c in calls:
+                if c[0] == 'send':
+                    q.append(list(portsim.msg_of(c[1]).bytes()))
+                elif c[0] == 'sendsx':
+                    q.append(list(portsim.sx_msg_of(c[1]).bytes()))
+                elif c[0] == 'sendrt':
+                    q.append(list(portsim.rt_msg_of(c[1]).bytes()))
+            queues.append(q)
+
+        def seg(pos, heads):
+            if pos == len(wire):
+                return all(h == len(q) for h, q in zip(heads, queues))
+            for i, q in enumerate(queues):
+                if heads[i] < len(q):
+                    e = q[heads[i]]
+                    if wire[pos:pos + len(e)] == e and seg(pos + len(e), heads[:i] + [heads[i] + 1] + heads[i + 1:]):
+                        return True
+            return False
+        if not seg(0, [0] * len(queues)):
+            return (f'the bytes on the wire {wire} are not a sequence of whole encodings of the sent messages, per sender in order '
+                    f'{queues} (mixed byte-wise, lost, doubled or reordered)')
     # per-sender order as seen in the global pop order of the trace
     if kind == 'echo':
         for i, ks in sent_by.items():
@@ -428,6 +449,26 @@ def pqueue_many(n):
     return None
 
 
+def echo_many(n):
+    """No scheduler: n messages sent to an EchoPort nobody reads meanwhile must all be received, once, in order."""
+    import mido.ports as P
+    p = P.EchoPort()
+    for i in range(n):
+        p.send(portsim.msg_of(i % 200000))
+    cnt = 0
+    bad = None
+    while True:
+        m = p.poll()
+        if m is None:
+            break
+        if portsim.ident(m) != cnt % 200000 and bad is None:
+            bad = cnt
+        cnt += 1
+    if cnt != n or bad is not None:
+        return f'{n} messages were sent to an EchoPort, {cnt} were received' + (f' (first wrong one at index {bad})' if bad is not None else '')
+    return None
+
+
 def gen_programs(ck):
     rng = ck.rng
     progs = []
@@ -442,6 +483,8 @@ def gen_programs(ck):
     # device double: bytes on the wire
     progs.append(('wire', [], [[('send', next(ids))], [('send', next(ids))]]))
     progs.append(('wire', [], [[('send', next(ids)), ('send', next(ids))], [('send', next(ids))], [('send', next(ids))]]))
+    progs.append(('wire', [], [[('sendsx', next(ids))], [('sendrt', next(ids))]]))
+    progs.append(('wire', [], [[('sendsx', next(ids)), ('send', next(ids))], [('sendrt', next(ids)), ('sendrt', next(ids))], [('send', next(ids))]]))
     # IOPort over a device pair: the shared deque
     progs.append(('ioport', [next(ids)], [[('poll',)], [('poll',)]]))
     progs.append(('ioport', [next(ids), next(ids)], [[('poll',), ('poll',)], [('poll',)], [('send', next(ids))]]))
@@ -525,6 +568,12 @@ def run(ck):
         f = pqueue_many(n)
         if f:
             ck.oracle_fail({'pqueue_many': n}, f)
+    for n in ([270000] if ck.tier == 'quick' else [262143, 262144, 262145, 1100000]):
+        ck.evaluations += 1
+        ck.count('echo_many')
+        f = echo_many(n)
+        if f:
+            ck.oracle_fail({'echo_many': n}, f)
     ck.compare('ports_conc', reqs, impl, ck.driver.run(reqs))
     ck.compare('lock_discipline', dreqs, dimpl, ck.driver.run(dreqs))
     ck.sample({'prog': repr(progs[1]), 'schedule': res[1][5]['decisions'] if len(res[1]) > 5 else res[1][0]['decisions']})
@@ -539,6 +588,8 @@ def run(ck):
 
 
 def oracle(case):
+    if 'echo_many' in case:
+        return echo_many(case['echo_many'])
     if 'pqueue_many' in case:
         return pqueue_many(case['pqueue_many'])
     prog = eval(case['prog'])
